@@ -220,7 +220,12 @@ func c17Identifiers(c *mon.Ctx) {
 		"@a:[::1]:80", "@a:b:c", "@a:b:80", "@A:b", "@a+b:c", "@a b:c", "@é:c", "!a b:c", "!é:c", "!a:b:c:80", "@" + strings.Repeat("a", 252) + ":b", "@" + strings.Repeat("a", 253) + ":b",
 		"::ffff:1.2.3.4", "::ffff:1.2.3.4:8448", "@a:::ffff:1.2.3.4", "!a:::ffff:1.2.3.4", "1::", "2001:db8::1", "2001:db8::1:8448",
 		"!" + strings.Repeat("a", 251) + ":bc", "!" + strings.Repeat("a", 252) + ":bc", "!" + strings.Repeat("a", 300) + ":bc", "!a:" + strings.Repeat("b", 251), "!a:" + strings.Repeat("b", 252), "!" + strings.Repeat("é", 126) + ":b", "!" + strings.Repeat("é", 127) + ":b",
-		"!" + strings.Repeat("A", 42), "!" + strings.Repeat("A", 43), "!" + strings.Repeat("A", 44), "!" + strings.Repeat("A", 42) + "+", "!" + strings.Repeat("A", 42) + "="} {
+		"!" + strings.Repeat("A", 42), "!" + strings.Repeat("A", 43), "!" + strings.Repeat("A", 44), "!" + strings.Repeat("A", 42) + "+", "!" + strings.Repeat("A", 42) + "=",
+		// 43 characters of the alphabet with something a lenient base64 decoder skips or tolerates in between / behind
+		"!" + strings.Repeat("A", 43) + "\n", "!" + strings.Repeat("A", 43) + "\r\n", "!" + strings.Repeat("A", 20) + "\n" + strings.Repeat("A", 23), "!\r" + strings.Repeat("A", 43),
+		"!" + strings.Repeat("A", 43) + "=", "!" + strings.Repeat("A", 43) + " ", "!" + strings.Repeat("A", 21) + "\r\n" + strings.Repeat("A", 22), "!" + strings.Repeat("A", 43) + "\x00",
+		// 43 characters that are no canonical encoding of 32 bytes (the last one leaves bits over), and the other alphabet
+		"!" + strings.Repeat("A", 42) + "B", "!" + strings.Repeat("A", 42) + "/", "!" + strings.Repeat("_", 43), "!" + strings.Repeat("-", 43)} {
 		if c.Shard == 0 {
 			all(s, false)
 		}
